@@ -12,7 +12,7 @@
   * every `range` over a Go map takes the iteration order as a parameter `π` (a function that permutes the
     entries); the theorems of C11 quantify over all of them.
   * `strings.HasPrefix/Contains` = list prefix / infix; `strings.ToLower` = `GoCase.goToLower` (Model/GoCase.lean: Go's
-    function on ASCII, invalid UTF-8 and a stated alphabet of cased letters); `TypeName` = the generated
+    function — ASCII fast path, invalid UTF-8, `unicode.ToLower` from Go's own table for all of Unicode); `TypeName` = the generated
     table + `fmt.Sprintf("oid:%d")`; `strconv.FormatUint(_, 10)` = decimal text.
 -/
 import PgVerif.Model.Catalog
